@@ -16,6 +16,11 @@ Oracles
 * ``app``: ``hypothesis`` / ``model_collection`` apps, null -> alt (-> alt2), every
   model with its own evaluation limit and optimiser (Powell, annealing, both): LR >= 0,
   lnL non-decreasing along the chain, fitted values inside the declared box.
+* ``init-dinuc``: dinucleotide word models with ``mprob_model`` monomer / tuple / conditional inside the general
+  non-reversible dinucleotide model (or a richer reversible one): same relation, plus an independent 16-state reference
+  likelihood written here (motif-probability term of a cell per ``mprob_model``, expm, pruning).
+* ``app-codon``: ``hypothesis`` / ``model_collection`` over MG94HKY (-> MG94GTR) -> GNC with small evaluation limits: LR >= 0,
+  lnL non-decreasing, bounds, and the fitted GNC re-initialised from the fitted reversible model by a direct call.
 * ``natsel``: the library's own nested-hypothesis apps (``natsel_neutral``,
   ``natsel_timehet``, ``natsel_sitehet``, ``natsel_zhang``) on small codon alignments:
   hypothesis_result returned, degrees of freedom as documented, LR >= 0, fitted values
@@ -47,9 +52,15 @@ RULE = (
     "length groups that refine the null's. About 30 % of the nulls with rate parameters hold one or more of them constant (unscoped rule, value at least a factor 2 from 1). "
     "Null parameters are random inside their bounds (rates 0.05-20, lengths 1e-3-2, random or data motif probs). "
     "Non-trivial = alt has at least 2 more free parameters than the null and the null's motif probabilities are unequal. "
-    "init-codon: the same relation on codon pairs (MG94HKY/MG94GTR, CNFHKY/CNFGTR, GY94 or Y98 / H04G, Y98 / H04GK, H04G / H04GGK, or one of 8 codon models against itself) "
+    "init-codon: the same relation on codon pairs (MG94HKY/MG94GTR, CNFHKY/CNFGTR, GY94 or Y98 / H04G, Y98 / H04GK, H04G / H04GGK, or one of 9 codon models, GNC included, against itself) "
     "on 3-5 tip trees, 8-16 codons, random or data motif probabilities; the null's omega is free, constant at 1.0 (the canonical neutral null), constant at another value, "
     "two-valued on an edge subset or constant 1.0 on an edge subset; the alt's omega or kappa is global, per edge, shared on a subset or refines the null's partition. "
+    "Reversible codon nulls inside the non-reversible GNC: MG94HKY / MG94GTR (any monomer probabilities, random or from the data) and Y98 / GY94 (61 equal probabilities) -> GNC with free codon probabilities, "
+    "GNC's omega or a directed rate (A>G, C>A) global, per edge, shared on a subset or refining the null's omega partition; GNC against itself. "
+    "init-dinuc: TimeReversibleDinucleotide nulls (no predicate, kappa, or the five GTR exchangeabilities; mprob_model monomer / tuple / conditional) on 3-5 tip trees, 6-20 dinucleotide columns of A C G T, "
+    "random rates and lengths, inside NonReversibleDinucleotide with the 11 directed rates (monomer: random or data probabilities; tuple / conditional: 16 equal probabilities; alt mprob_model tuple or default) "
+    "or inside the reversible GTR-like dinucleotide model with the same mprob_model (random probabilities), one alt rate optionally per edge or shared on a subset; null and alt likelihood also compared with a 16-state reference. "
+    "app-codon: chains MG94HKY -> GNC, MG94GTR -> GNC, MG94HKY -> MG94GTR (-> GNC) through hypothesis / model_collection on 8-16 codons, per-model max_evaluations 1 / 5 / 25, the null's omega free or constant 1.0. "
     "optimise: a case is a nucleotide model (optionally with a per-edge parameter), tree, alignment, start values inside "
     "case-declared bounds (default or tight) and optimiser settings (local Powell / global annealing then local / global only, "
     "max_evaluations 1-30, 50, 100, 400 or 3000, tolerance, global_tolerance, max_restarts, limit_action, annealer seed). Non-trivial = the run "
@@ -80,6 +91,17 @@ ASSUMPTIONS = [
     "(with equal boxes the projected null value * pi_j / pi_ref can fall outside the alt's box, where it is clipped: the bounded alt then does not contain the null, so the pair is not nested); LR >= -1e-6",
     "optimise: the reported parameters are compared with the reference likelihood only when every reported motif probability exceeds 1e-5 (get_motif_probs lifts smaller values to its 1e-6 floor by design)",
     "the codon sub-check has no independent reference likelihood (relation between null and alt only); a null omega constant at 1.0 equals the fresh alt's default, so dropping it would go unseen: constants 0.2 / 0.5 / 3.0 and edge-subset constants are generated as well",
+    "reversible codon models inside GNC: MG94HKY / MG94GTR have rate = pi(new nucleotide) x exchangeability x omega, contained in GNC's directed rates x omega for every monomer vector, provided GNC's 61 codon probabilities "
+    "(used at the root only) are free so that they can take the products of the monomer probabilities (every codon model of this check is built with optimise_motif_probs=True); Y98 / GY94 have rate = pi(new codon) x kappa x omega, "
+    "contained in GNC only when the 61 probabilities are equal (the generator sets them equal; with data or random probabilities the pair is out of the domain); CNFHKY / CNFGTR are never inside GNC "
+    "(pi(codon) / pi(context) differs between contexts next to stop codons even for equal probabilities)",
+    "motif probabilities carried over: when the null's are monomer probabilities and the alt's are word probabilities, the alt must hold their products normalised over the alt's motifs",
+    "dinucleotide models: same containment argument without stop codons: monomer nulls lie inside the general non-reversible model for every monomer vector, tuple and conditional nulls only for 16 equal probabilities "
+    "(conditional then has the constant term 1/4); mprob_model='monomers' (position-specific) is not nested in a model with position-independent directed rates and is not generated; dinucleotide alignments hold A C G T only and an even number of columns",
+    "the 16-state reference normalises Q by sum_i wordprob_i * rowsum_i and takes the word probabilities as root distribution (as the library documents for word models); null.lnL must agree with it to 1e-7 relative, otherwise the harness model is wrong",
+    "app-codon: from GNC on the model apps get lower=1e-12, upper=1e9 (same reason as for nucleotide chains); LR >= -1e-6; the direct initialise_from_nested call is made on the fitted GNC only for the step reversible -> GNC, "
+    "where every GNC rate (from a null parameter or from the null's reference cells) and the codon probabilities get a value from the null; for MG94HKY -> MG94GTR the exchangeabilities on the null's reference cells would keep their fitted values, so no direct call there; its lnL clause is skipped when a fitted monomer probability of the null is reported at the 1e-6 floor",
+    "init-codon / init-dinuc: motif probabilities are compared (and the dinucleotide reference computed) only when every probability the null reports exceeds 1e-5 (a nucleotide or codon absent from the data is reported at get_motif_probs' 1e-6 floor, not at the value in use); the lnL relation is checked regardless",
     "codon substitution models are built once per process and deep-copied per case (construction takes 1-2.5 s)",
     "natsel: alignments hold sense codons of the standard code and '---' only and tip names come from the tree, so no documented NotCompleted reason applies: any NotCompleted is reported",
     "natsel: degrees of freedom as the app docstrings describe the alternates and tests/test_app/test_evo.py pins: neutral 1, sitehet 2, zhang 3, timehet 1 or (is_independent) the number of foreground edges; "
@@ -813,10 +835,23 @@ CODON_PAIRS = [
     ("MG94HKY", "MG94HKY", "named"),
     ("CNFGTR", "CNFGTR", "named"),
 ]
+# reversible codon null inside the non-reversible GNC (rate = directed nucleotide rate x omega, the 61 codon probabilities
+# only at the root). MG94*: rate = pi(new nucleotide) x exchangeability x omega, nested for every monomer vector (GNC's
+# A>G = kappa * pi_G / pi_ref ...) once GNC's codon probabilities take the products of the monomer probabilities.
+# Y98 / GY94: rate = pi(new codon) x kappa x omega, a function of the nucleotide change only when all 61 are equal.
+# CNF* (pi(codon) / pi(context)) is not nested even then: contexts next to stop codons hold 2 or 3 sense codons.
+CODON_NS_PAIRS = [
+    ("MG94HKY", "GNC", "reversible-to-GNC/monomer-motif-probs"),
+    ("MG94GTR", "GNC", "reversible-to-GNC/monomer-motif-probs"),
+    ("Y98", "GNC", "reversible-to-GNC/equal-motif-probs"),
+    ("GY94", "GNC", "reversible-to-GNC/equal-motif-probs"),
+    ("MG94HKY", "GNC", "reversible-to-GNC/monomer-motif-probs"),
+]
+CODON_MONOMER = ("MG94HKY", "MG94GTR")
 SENSE = [a + b + c for a in "TCAG" for b in "TCAG" for c in "TCAG" if a + b + c not in ("TAA", "TAG", "TGA")]
 SENSE_SET = frozenset(SENSE)
 # models whose omega = 1 sub-model is the canonical neutral null (the same model with omega held constant)
-CODON_NEUTRAL = ["MG94HKY", "GY94", "Y98", "CNFGTR", "H04GK", "MG94GTR", "CNFHKY", "H04G"]
+CODON_NEUTRAL = ["MG94HKY", "GY94", "Y98", "CNFGTR", "H04GK", "MG94GTR", "CNFHKY", "H04G", "GNC"]
 
 _PRISTINE = {}  # per process: model name -> substitution model never handed to a likelihood function
 
@@ -877,6 +912,8 @@ def codon_cases(draw):
     if null_omega and draw(st.booleans()):
         nm = draw(st.sampled_from(CODON_NEUTRAL))
         null_n, alt_n, circ = nm, nm, "named"
+    elif draw(st.integers(0, 2)) == 0:
+        null_n, alt_n, circ = draw(st.sampled_from(CODON_NS_PAIRS))
     else:
         null_n, alt_n, circ = draw(st.sampled_from(CODON_PAIRS))
     S = null_omega["edges"] if null_omega and null_omega["mode"] == "scoped" else None
@@ -884,6 +921,10 @@ def codon_cases(draw):
     must = null_n == alt_n and not (null_omega and null_omega["mode"] == "const")
     if must or draw(st.integers(0, 2)) == 0:
         pars = ["omega", "omega", "kappa"] if ("HKY" in alt_n or alt_n[0] in "YH" or alt_n == "GY94") and not S else ["omega"]
+        if alt_n == "GNC" and not S:
+            # a directed rate whose source is the null's kappa or A/G (A>G), one whose source is the null's reference cells
+            # under MG94HKY / Y98 (C>A), omega
+            pars = ["omega", "A>G", "C>A"]
         par = draw(st.sampled_from(pars))
         mode = draw(st.sampled_from(["indep", "split", "split"] if S else ["indep", "shared", "split"]))
         if mode == "indep":
@@ -902,7 +943,7 @@ def codon_cases(draw):
         "scope": scope,
         "null_omega": null_omega,
         # weights of the null's motif probabilities (4 for the nucleotide-frequency models, 61 otherwise), None: from the data
-        "pi": [draw(st.integers(1, 20)) for _ in range(61)] if draw(st.booleans()) else None,
+        "pi": [1] * 61 if circ.endswith("equal-motif-probs") else [draw(st.integers(1, 20)) for _ in range(61)] if draw(st.booleans()) else None,
         "rates": [_rate(draw) for _ in range(8)],
         "lengths": {e: _length(draw) for e in edges},
     }
@@ -932,6 +973,9 @@ def exec_codon(case) -> Soft:
     if not ok:
         return s
     _check_tree(null, tkey)
+    to_gnc = case["alt"] == "GNC" and case["null"] != "GNC"
+    if to_gnc and case["null"] not in CODON_MONOMER and len(set(case.get("pi") or [1, 2])) != 1:
+        raise HarnessError(f"{case['null']} lies inside GNC only with equal codon probabilities: case not in the domain")
 
     def settings():
         if case.get("pi") is not None:
@@ -977,7 +1021,8 @@ def exec_codon(case) -> Soft:
     if not ok or not math.isfinite(lnl0):
         return s
     scirc = "scoped" if scope else "global"
-    ok, _ = s.call(f"initialise_from_nested/{scirc}", alt.initialise_from_nested, null)
+    # reversible -> GNC has its own signatures (another code path: rates are projected through the null's motif probabilities)
+    ok, _ = s.call(f"initialise_from_nested/{circ}/{scirc}" if to_gnc else f"initialise_from_nested/{scirc}", alt.initialise_from_nested, null)
     if not ok:
         return s
     ok, lnl1 = s.call("alt/lnL", lambda: float(alt.lnL))
@@ -988,13 +1033,23 @@ def exec_codon(case) -> Soft:
 
     def carried():
         a, b = null.get_motif_probs(), alt.get_motif_probs()
+        if len(list(a.keys())) == 4 and len(list(b.keys())) == 61:
+            # monomer probabilities of the null: the alt's codon probabilities are their products over the sense codons
+            w = {k: float(a[k[0]]) * float(a[k[1]]) * float(a[k[2]]) for k in b.keys()}
+            tot = sum(w.values())
+            a = {k: v / tot for k, v in w.items()}
+        floor = min(min(float(a[k]), float(b[k])) for k in a.keys()) <= PI_FLOOR
         dpi = max(abs(float(a[k]) - float(b[k])) for k in a.keys())
         dlen = max(abs(float(alt.get_param_value("length", edge=e)) - float(case["lengths"][e])) / max(1.0, float(case["lengths"][e])) for e in edges)
-        return dpi, dlen
+        return dpi, dlen, floor
 
     ok, d = s.call("alt/read", carried)
     if ok:
-        s.check(d[0] <= 1e-9, "motif-probs", f"{what}: largest motif-probability difference {d[0]:.3e}")
+        if d[2]:
+            # a codon (or product of monomer probabilities) near get_motif_probs' 1e-6 floor: reported lifted, not as in use
+            s.cls("motif-prob-at-floor:not-compared")
+        else:
+            s.check(d[0] <= 1e-9, "motif-probs", f"{what}: largest motif-probability difference {d[0]:.3e}")
         s.check(d[1] <= 1e-9, "lengths", f"{what}: largest relative length difference {d[1]:.3e}")
     s.nontrivial = nfp[1] - nfp[0] >= 2 or bool(null_omega)
     s.evals = 2
@@ -1362,6 +1417,396 @@ def exec_app(case) -> Soft:
     return s
 
 
+# ------------------------------------------------------------ app, codon chains
+# reversible codon nulls fitted through the apps, then GNC started from them (the step the natsel apps never take)
+CODON_CHAINS = [["MG94HKY", "GNC"], ["MG94HKY", "GNC"], ["MG94GTR", "GNC"], ["MG94HKY", "MG94GTR", "GNC"], ["MG94HKY", "MG94GTR"]]
+CODON_RATE_PARAMS = {
+    "MG94HKY": ["kappa", "omega"],
+    "MG94GTR": ["A/C", "A/G", "A/T", "C/G", "C/T", "omega"],
+    "GNC": list(NUC["GN"][2]) + ["omega"],
+}
+
+
+@st.composite
+def app_codon_cases(draw):
+    tkey = draw(st.sampled_from(["t3", "t3", "t4", "t4r", "t5"]))
+    tmodel = TREES[tkey][1]
+    chain = list(draw(st.sampled_from(CODON_CHAINS)))
+    models = []
+    for m in chain:
+        spec = draw(_opt_args(evals=(1, 5, 25)))
+        spec["sm"] = m
+        models.append(spec)
+    # the canonical neutral null now and then (omega constant at 1 in the first model only)
+    if draw(st.integers(0, 3)) == 0:
+        models[0]["const"] = {"omega": 1.0}
+    return {"tree": tkey, "rows": draw(codon_rows(tree_tips(tmodel), lengths=(8, 12, 16))), "models": models}
+
+
+def exec_app_codon(case) -> Soft:
+    from cogent3 import get_app, make_aligned_seqs
+
+    s = Soft("C16/app-codon/")
+    tkey = case["tree"]
+    newick = TREES[tkey][0]
+    edges = tree_edges(TREES[tkey][1])
+    rows = {str(k): str(v) for k, v in case["rows"].items()}
+    specs = case["models"]
+    kind = "hypothesis" if len(specs) == 2 else "model_collection"
+    names = [f"m{i}-{m['sm']}" for i, m in enumerate(specs)]
+
+    def wide(i):
+        return any(x["sm"] == "GNC" for x in specs[: i + 1])
+
+    def build():
+        apps = []
+        for i, m in enumerate(specs):
+            kw = {}
+            if wide(i):
+                kw["lower"], kw["upper"] = WIDE_BOUNDS
+            if m.get("const"):
+                kw["param_rules"] = [dict(par_name=p, is_constant=True, value=float(v)) for p, v in sorted(m["const"].items())]
+            apps.append(get_app("model", codon_sm(m["sm"]), tree=newick, name=names[i], optimise_motif_probs=True, opt_args=_opt_kwargs(m), **kw))
+        return get_app(kind, *apps)
+
+    ok, app = s.call("build", build)
+    if not ok:
+        return s
+    aln = make_aligned_seqs(rows, moltype="dna", info={"source": "c16"})
+    with warnings.catch_warnings():
+        warnings.simplefilter("ignore")
+        ok, res = s.call(kind, lambda: app(aln))
+    if not ok:
+        return s
+    s.cls(f"app:{kind}", f"tree:{tkey}", "chain:" + "<".join(m["sm"] for m in specs), "null-omega:constant-1.0" if specs[0].get("const") else "null-omega:free")
+    for m in specs:
+        s.cls(f"max_evaluations:{m['max_evaluations']}", "optimiser:" + {True: "local", None: "global+local", False: "global"}[m.get("local", True)])
+    what = f"{kind} {specs} tree {tkey} {len(rows)} taxa x {len(next(iter(rows.values()))) // 3} codons"
+    if type(res).__name__ == "NotCompleted":
+        s.fail(f"{kind}/not-completed", f"{what}: {str(res)[:300]}")
+        return s
+
+    def stats():
+        return [(float(res[n].lnL), int(res[n].nfp)) for n in names]
+
+    ok, st_ = s.call("read", stats)
+    if not ok:
+        return s
+    what += f": (lnL, nfp) {st_}"
+
+    def step_tag(i):
+        return "/reversible-to-GNC" if specs[i]["sm"] == "GNC" and specs[i - 1]["sm"] != "GNC" else ""
+
+    for i in range(1, len(st_)):
+        (l0, n0), (l1, n1) = st_[i - 1], st_[i]
+        if n1 <= n0:
+            s.cls("not-richer")
+            continue
+        if kind == "hypothesis":
+            ok, lr = s.call("LR", lambda: float(res.LR))
+            if ok:
+                s.check(lr >= -1e-6, f"negative-LR{step_tag(i)}", f"{what}: LR {lr!r}")
+                s.check(abs(lr - 2 * (l1 - l0)) <= 1e-9 * max(1.0, abs(lr)), "LR-definition", f"{what}: LR {lr!r}")
+        else:
+            s.check(l1 >= l0 - 5e-7, f"lnL-decreases-along-chain{step_tag(i)}", f"{what}: step {i}")
+    for i, m in enumerate(specs):
+        lo, hi = WIDE_BOUNDS if wide(i) else APP_BOX
+        lf = res[names[i]].lf
+
+        def fitted():
+            out = {(p, e): float(lf.get_param_value(p, edge=e)) for p in CODON_RATE_PARAMS[m["sm"]] for e in edges}
+            out.update({("length", e): float(lf.get_param_value("length", edge=e)) for e in edges})
+            return out
+
+        with warnings.catch_warnings():
+            warnings.simplefilter("ignore")
+            ok, vals = s.call("read-values", fitted)
+        if not ok:
+            continue
+        const = m.get("const") or {}
+        bad = [(k, v) for k, v in sorted(vals.items()) if not (_inside(v, float(const[k[0]]), float(const[k[0]])) if k[0] in const else _inside(v, lo, hi))]
+        s.check(not bad, "bounds", f"{what}: model {i} ({m['sm']}) box [{lo}, {hi}] constants {const}: outside {bad[:4]}")
+    # the property's core without _InitFrom's "except Exception: pass": the fitted GNC re-initialised from the fitted
+    # reversible model before it. Every rate of GNC gets a value from the null (from a parameter or from its reference
+    # cells) and so do its codon probabilities, so no fitted value survives the call.
+    last = len(specs) - 1
+    if step_tag(last) and st_[last][1] > st_[last - 1][1]:
+        nlf, alf = res[names[last - 1]].lf, res[names[last]].lf
+        with warnings.catch_warnings():
+            warnings.simplefilter("ignore")
+            ok, _ = s.call("initialise_from_nested/reversible-to-GNC", alf.initialise_from_nested, nlf)
+            if ok:
+                ok, l2 = s.call("alt-lnL", lambda: float(alf.lnL))
+            if ok:
+                ok, pmin = s.call("null-motif-probs", lambda: min(float(x) for x in nlf.get_motif_probs().array))
+            if ok and pmin <= PI_FLOOR:
+                # a fitted monomer probability at get_motif_probs' 1e-6 floor is reported lifted: the projection cannot be exact
+                s.cls("motif-prob-at-floor:init-lnL-not-compared")
+            elif ok:
+                l0 = st_[last - 1][0]
+                s.check(abs(l2 - l0) <= 1e-6, "init-lnL/reversible-to-GNC", f"{what}: GNC.lnL right after initialise_from_nested(fitted {specs[last - 1]['sm']}) {l2!r} (diff {l2 - l0:.3e})")
+    s.nontrivial = st_[-1][1] - st_[0][1] >= 2 and max(int(m["max_evaluations"]) for m in specs[1:]) > 1
+    s.evals = len(specs) + 1
+    return s
+
+
+# ---------------------------------------------------------- dinucleotide pairs
+# word models over the 16 dinucleotides, one nucleotide changing at a time; the motif-probability term of a cell is
+#   monomer:      pi(new nucleotide)                      (4 probabilities; word probability = product)
+#   tuple:        pi(new dinucleotide)                    (16 probabilities)
+#   conditional:  pi(new dinucleotide) / sum of pi over the 4 dinucleotides sharing the unchanged position
+# null: TimeReversibleDinucleotide with F81- / HKY- / GTR-like predicates; alt: the general non-reversible model with 11
+# directed rates (nested for every monomer vector, for tuple / conditional only with 16 equal probabilities) or the
+# GTR-like reversible model with the same motif-probability model (nested for every vector)
+DINUC_STATES = [a + b for a in BASES for b in BASES]
+DINUC_PREDS = {
+    "none": {},
+    "kappa": {"kappa": ["AG", "CT"]},
+    "gtr": {"A/C": ["AC"], "A/G": ["AG"], "A/T": ["AT"], "C/G": ["CG"], "C/T": ["CT"]},
+}
+DINUC_MASKS = ["." * 12 + "sv", "." * 6 + "ssv", "." * 3 + "ssvv"]
+
+
+def dinuc_sm(kind, mprob_model):
+    """kind: 'none' / 'kappa' / 'gtr' (reversible) or 'general' (non-reversible); one pristine instance per process"""
+    import copy
+
+    key = ("dinuc", kind, mprob_model)
+    if key not in _PRISTINE:
+        from cogent3.evolve.ns_substitution_model import NonReversibleDinucleotide
+        from cogent3.evolve.predicate import MotifChange
+        from cogent3.evolve.substitution_model import TimeReversibleDinucleotide
+
+        if kind == "general":
+            preds = [MotifChange(p[0], p[2], forward_only=True) for p in NUC["GN"][2]]
+            _PRISTINE[key] = NonReversibleDinucleotide(predicates=preds, mprob_model=mprob_model, optimise_motif_probs=True, recode_gaps=True, name="dinuc-general")
+        else:
+            preds = {}
+            for p, pairs in sorted(DINUC_PREDS[kind].items()):
+                pred = None
+                for pair in pairs:
+                    mc = MotifChange(pair[0], pair[1])
+                    pred = mc if pred is None else (pred | mc)
+                preds[p] = pred
+            _PRISTINE[key] = TimeReversibleDinucleotide(predicates=preds, mprob_model=mprob_model, optimise_motif_probs=True, recode_gaps=True, name=f"dinuc-{kind}-{mprob_model}")
+    return copy.deepcopy(_PRISTINE[key])
+
+
+def dinuc_word_probs(mprob_model, pi):
+    """{dinucleotide: probability}; pi: 4 monomer values (BASES order) or 16 word values (DINUC_STATES order)"""
+    if mprob_model == "monomer":
+        w = {ab: pi[IDX[ab[0]]] * pi[IDX[ab[1]]] for ab in DINUC_STATES}
+    else:
+        w = dict(zip(DINUC_STATES, pi))
+    tot = sum(w.values())
+    return {k: v / tot for k, v in w.items()}
+
+
+def ref_lnl_dinuc(tree_model, rows, mprob_model, cells, rates, lengths, pi):
+    """pruning over the 16 dinucleotide states for a time-reversible word model (A C G T only in rows)"""
+    import numpy
+    from scipy.linalg import expm
+
+    word = dinuc_word_probs(mprob_model, pi)
+    n = len(DINUC_STATES)
+    sidx = {ab: i for i, ab in enumerate(DINUC_STATES)}
+    q = numpy.zeros((n, n))
+    for a in DINUC_STATES:
+        for b in DINUC_STATES:
+            diff = [k for k in (0, 1) if a[k] != b[k]]
+            if len(diff) != 1:
+                continue
+            k = diff[0]
+            x, y = a[k], b[k]
+            r = 1.0
+            for p, cs in cells.items():
+                if (x, y) in cs:
+                    r *= rates[p]
+            if mprob_model == "monomer":
+                w = pi[IDX[y]]
+            elif mprob_model == "tuple":
+                w = word[b]
+            else:
+                w = word[b] / sum(word[c] for c in DINUC_STATES if c[1 - k] == b[1 - k])
+            q[sidx[a], sidx[b]] = r * w
+    for i in range(n):
+        q[i, i] = -q[i].sum()
+    root = numpy.array([word[ab] for ab in DINUC_STATES])
+    q = q / -(root * numpy.diag(q)).sum()
+    psub = {e: expm(q * lengths[e]) for e in lengths}
+    tips = sorted(rows)
+    L = len(rows[tips[0]]) // 2
+    cols = {}
+    for k in range(L):
+        col = tuple(rows[t][2 * k : 2 * k + 2] for t in tips)
+        cols[col] = cols.get(col, 0) + 1
+    total = 0.0
+    for col, cnt in sorted(cols.items()):
+        sym = dict(zip(tips, col))
+
+        def partial(node):
+            name, kids = node
+            if not kids:
+                v = numpy.zeros(n)
+                v[sidx[sym[name]]] = 1.0
+                return v
+            v = numpy.ones(n)
+            for kid in kids:
+                v = v * (psub[kid[0]] @ partial(kid))
+            return v
+
+        lk = float(root @ partial(tree_model))
+        if lk <= 0:
+            return -math.inf
+        total += cnt * math.log(lk)
+    return total
+
+
+@st.composite
+def dinuc_cases(draw):
+    tkey = draw(st.sampled_from(["t3", "t3", "t4", "t4r", "t5"]))
+    tmodel = TREES[tkey][1]
+    edges = tree_edges(tmodel)
+    L = draw(st.sampled_from([12, 20, 40]))
+    base = _text(draw, draw(st.sampled_from(BASE_ALPHABETS)), L)
+    mask_alpha = draw(st.sampled_from(DINUC_MASKS))
+    rows = {}
+    for t in tree_tips(tmodel):
+        mask = _text(draw, mask_alpha, L)
+        rows[t] = "".join(ch if m == "." else TS[ch] if m == "s" else TV[ch] for ch, m in zip(base, mask))
+    alt_kind = draw(st.sampled_from(["general", "general", "general", "gtr"]))
+    nkind = draw(st.sampled_from(["none", "kappa", "kappa", "gtr"] if alt_kind == "general" else ["none", "kappa"]))
+    mpm = draw(st.sampled_from(["monomer", "monomer", "tuple", "conditional"]))
+    if mpm == "monomer":
+        pi = _pi(draw) if draw(st.integers(0, 3)) else None  # None: from the data
+    elif alt_kind == "general":
+        pi = [1.0] * 16  # pi(new dinucleotide) must not depend on the dinucleotide
+    else:
+        pi = [round(draw(st.floats(0.1, 1.0, allow_nan=False, allow_infinity=False)), 4) for _ in range(16)]
+    scope = None
+    if draw(st.integers(0, 2)) == 0 and len(edges) >= 2:
+        par = draw(st.sampled_from(["A>G", "C>A", "G>T"] if alt_kind == "general" else ["A/G", "A/C", "C/G"]))
+        if draw(st.booleans()):
+            scope = {"par": par, "mode": "indep", "edges": edges}
+        else:
+            scope = {"par": par, "mode": "shared", "edges": _subset(draw, edges, 1, len(edges) - 1)}
+    return {
+        "tree": tkey,
+        "rows": rows,
+        "null": {"preds": nkind, "mprob_model": mpm, "pi": pi, "rates": {p: _rate(draw) for p in sorted(DINUC_PREDS[nkind])}, "lengths": {e: _length(draw) for e in edges}},
+        "alt": {"kind": alt_kind, "mprob_model": draw(st.sampled_from(["tuple", None])) if alt_kind == "general" else mpm, "scope": scope},
+    }
+
+
+def exec_dinuc(case) -> Soft:
+    from cogent3 import make_aligned_seqs, make_tree
+
+    s = Soft("C16/init-dinuc/")
+    tkey = case["tree"]
+    newick, tmodel = TREES[tkey]
+    edges = tree_edges(tmodel)
+    rows = {str(k): str(v) for k, v in case["rows"].items()}
+    null_c, alt_c = case["null"], case["alt"]
+    mpm = str(null_c["mprob_model"])
+    scope = alt_c["scope"]
+    general = alt_c["kind"] == "general"
+    if general and mpm != "monomer" and len(set(null_c["pi"])) != 1:
+        raise HarnessError("tuple / conditional dinucleotide nulls lie inside the general model only with equal probabilities: case not in the domain")
+    cells = {p: _both(*pairs) for p, pairs in DINUC_PREDS[null_c["preds"]].items()}
+
+    def build(sm):
+        lf = sm.make_likelihood_function(make_tree(newick))
+        lf.set_alignment(make_aligned_seqs({k: rows[k] for k in sorted(rows)}, moltype="dna", info={"source": "c16"}))
+        return lf
+
+    ok, null = s.call("null/build", lambda: build(dinuc_sm(null_c["preds"], mpm)))
+    if not ok:
+        return s
+    ok, alt = s.call("alt/build", lambda: build(dinuc_sm(alt_c["kind"], alt_c["mprob_model"] if general else mpm)))
+    if not ok:
+        return s
+    _check_tree(null, tkey)
+
+    def settings():
+        if null_c["pi"] is not None:
+            keys = list(BASES) if mpm == "monomer" else DINUC_STATES
+            null.set_motif_probs(dict(zip(keys, _norm_pi([float(x) for x in null_c["pi"]]))))
+        for p, v in sorted(null_c["rates"].items()):
+            null.set_param_rule(p, init=float(v))
+        for e in edges:
+            null.set_param_rule("length", edge=e, init=float(null_c["lengths"][e]))
+
+    ok, _ = s.call("null/settings", settings)
+    if not ok:
+        return s
+    ok, _ = s.call(f"alt/scope:{scope['mode'] if scope else 'none'}", apply_alt_scope, alt, scope)
+    if not ok:
+        return s
+    circ = ("reversible-to-general" if general else "reversible-to-reversible") + f"/{mpm}-motif-probs"
+    scirc = "scoped" if scope else "global"
+    s.cls(f"pair:{null_c['preds']}<{alt_c['kind']}", f"mprob_model:{mpm}", f"alt-mprob_model:{alt_c['mprob_model']}", f"alt-scope:{scope['mode'] if scope else 'none'}", f"tree:{tkey}", "circ:" + circ)
+    s.cls("null-pi:data" if null_c["pi"] is None else "null-pi:equal" if len(set(null_c["pi"])) == 1 else "null-pi:random")
+    ok, nfp = s.call("nfp", lambda: (null.get_num_free_params(), alt.get_num_free_params()))
+    if not ok:
+        return s
+    if nfp[1] <= nfp[0]:
+        s.cls("not-richer")
+        return s
+    ok, lnl0 = s.call("null/lnL", lambda: float(null.lnL))
+    if not ok or not math.isfinite(lnl0):
+        return s
+
+    def reported_pi():
+        mp = null.get_motif_probs()
+        return [float(mp[k]) for k in (BASES if mpm == "monomer" else DINUC_STATES)]
+
+    ok, pi0 = s.call("null/read", reported_pi)
+    if not ok:
+        return s
+    # data frequencies are taken as reported (how they are counted is not this property)
+    want_pi = _norm_pi([float(x) for x in null_c["pi"]]) if null_c["pi"] is not None else pi0
+    want_len = {e: float(null_c["lengths"][e]) for e in edges}
+    what = f"dinucleotide null {null_c} alt {alt_c} tree {tkey}"
+    # a nucleotide absent from the data: get_motif_probs reports its 1e-6 floor, not the value in use, so neither the
+    # reference nor the carried-over probabilities can be computed from the reported vector
+    floor = min(pi0) <= PI_FLOOR or min(dinuc_word_probs(mpm, want_pi).values()) <= PI_FLOOR
+    ref = None
+    if floor:
+        s.cls("motif-prob-at-floor:reference-not-compared")
+    else:
+        ref = ref_lnl_dinuc(tmodel, rows, mpm, cells, {p: float(v) for p, v in null_c["rates"].items()}, want_len, want_pi)
+        s.check(rel_ok(lnl0, ref, 1e-7), "null-lnL-vs-reference", f"{what}: lf.lnL {lnl0!r} reference {ref!r}")
+    ok, _ = s.call(f"initialise_from_nested/{circ}/{scirc}", alt.initialise_from_nested, null)
+    if not ok:
+        s.cls("init:raised")
+        return s
+    ok, lnl1 = s.call("alt/lnL", lambda: float(alt.lnL))
+    if not ok:
+        return s
+    what += f": null.lnL {lnl0!r} alt.lnL {lnl1!r} diff {lnl1 - lnl0:.3e}"
+    if s.check(abs(lnl1 - lnl0) <= 1e-6, f"lnL/{circ}/{scirc}", what) and ref is not None:
+        s.check(rel_ok(lnl1, ref, 1e-7), f"lnL-vs-reference/{circ}/{scirc}", what + f" reference {ref!r}")
+
+    def carried():
+        b = alt.get_motif_probs()
+        if len(list(b.keys())) == 16:
+            a = dinuc_word_probs(mpm, want_pi)
+        else:
+            a = dict(zip(BASES, want_pi))
+        dpi = max(abs(float(a[k]) - float(b[k])) for k in b.keys())
+        dlen = max(abs(float(alt.get_param_value("length", edge=e)) - want_len[e]) / max(1.0, want_len[e]) for e in edges)
+        return dpi, dlen
+
+    ok, d = s.call("alt/read", carried)
+    if ok:
+        if not floor:
+            s.check(d[0] <= 1e-9, "motif-probs", f"{what}: largest motif-probability difference {d[0]:.3e}")
+        s.check(d[1] <= 1e-9, "lengths", f"{what}: largest relative length difference {d[1]:.3e}")
+    s.nontrivial = nfp[1] - nfp[0] >= 2 and max(want_pi) - min(want_pi) > 1e-3
+    s.evals = 2
+    return s
+
+
 # --------------------------------------------------------------------- natsel
 # the library's own nested-hypothesis apps (cogent3/app/evo.py); foreground clades: sibling tips below a named internal edge
 NATSEL_APPS = ["natsel_neutral", "natsel_timehet", "natsel_timehet", "natsel_sitehet", "natsel_zhang"]
@@ -1565,6 +2010,8 @@ SUBS = [
     Sub("init-codon", exec_codon, strategy=codon_cases(), quick=160, thorough=16 * 400, shards_quick=4, weight=120.0),
     Sub("optimise", exec_opt, strategy=opt_cases(), quick=640, thorough=16 * 3000, shards_quick=8, weight=2.0),
     Sub("app", exec_app, strategy=app_cases(), quick=200, thorough=16 * 800, shards_quick=8, weight=4.0),
+    Sub("app-codon", exec_app_codon, strategy=app_codon_cases(), quick=32, thorough=16 * 100, shards_quick=2, weight=200.0),
+    Sub("init-dinuc", exec_dinuc, strategy=dinuc_cases(), quick=240, thorough=16 * 1500, shards_quick=4, weight=20.0),
     Sub("natsel", exec_natsel, strategy=natsel_cases(), quick=96, thorough=16 * 300, shards_quick=6, weight=110.0),
 ]
 
@@ -1572,7 +2019,7 @@ KNOWN_PREDICATES = {}
 
 META = {
     "technique": "Hypothesis-generated nested model pairs and optimiser runs; metamorphic relation null.lnL == alt.lnL after initialise_from_nested and lnL_after >= lnL_before, backed by an independent reference likelihood (rate-matrix cell tables, scipy expm, Felsenstein pruning) written in the check; hypothesis / model_collection / natsel_* apps end to end",
-    "level_text": "Each run builds about 1 200 nested nucleotide pairs (23 named structural pairs, user predicate refinements and extra predicates, per-edge / subset / refined-partition / time-heterogeneous scoping on either side, lengths equal, grouped or under a local clock) with random null parameters and compares the initialised alt's likelihood with the null's and with an independent pruning implementation; 160 codon pairs (omega constant at 1.0 or elsewhere, two-valued, random motif probabilities, 3-5 tips); runs about 640 local / global optimisations from random starts inside case-declared bounds under evaluation limits 1-3000 checking monotonicity, bounds and that the reported parameters reproduce the reported likelihood; fits about 200 null->alt(->alt2) chains through the apps with Powell and annealing checking LR >= 0 and bounds; and runs about 100 natsel_neutral / timehet / sitehet / zhang tests checking result type, degrees of freedom, LR >= 0, declared bounds and a direct re-initialisation of the app's alt from its null.",
-    "level_note": "Trusts the reference likelihood (about 70 lines) and the cell tables of eight nucleotide models. Codon pairs are only compared null-vs-alt (no reference). One bin and one locus for initialise_from_nested (the library supports no more); the binned natsel apps are judged through LR with a tolerance derived from their epsilon. Monotonicity is checked, not convergence; the annealer runs with at most 400 evaluations.",
+    "level_text": "Each run builds about 1 200 nested nucleotide pairs (23 named structural pairs, user predicate refinements and extra predicates, per-edge / subset / refined-partition / time-heterogeneous scoping on either side, lengths equal, grouped or under a local clock) with random null parameters and compares the initialised alt's likelihood with the null's and with an independent pruning implementation; 160 codon pairs (omega constant at 1.0 or elsewhere, two-valued, random motif probabilities, 3-5 tips; about a quarter of them reversible MG94HKY / MG94GTR / Y98 / GY94 nulls inside the non-reversible GNC); 240 dinucleotide pairs (mprob_model monomer / tuple / conditional, reversible inside the general non-reversible model or a richer reversible one) judged against the null and a 16-state reference; 32 codon chains MG94HKY (-> MG94GTR) -> GNC through the hypothesis / model_collection apps with a direct re-initialisation of the fitted GNC; runs about 640 local / global optimisations from random starts inside case-declared bounds under evaluation limits 1-3000 checking monotonicity, bounds and that the reported parameters reproduce the reported likelihood; fits about 200 null->alt(->alt2) chains through the apps with Powell and annealing checking LR >= 0 and bounds; and runs about 100 natsel_neutral / timehet / sitehet / zhang tests checking result type, degrees of freedom, LR >= 0, declared bounds and a direct re-initialisation of the app's alt from its null.",
+    "level_note": "Trusts the reference likelihoods (about 70 lines for nucleotides, 60 for dinucleotides) and the cell tables of eight nucleotide models. Codon pairs are only compared null-vs-alt (no reference). One bin and one locus for initialise_from_nested (the library supports no more); the binned natsel apps are judged through LR with a tolerance derived from their epsilon. Monotonicity is checked, not convergence; the annealer runs with at most 400 evaluations.",
     "design_ref": "DESIGN.md section 1, C16",
 }
